@@ -250,6 +250,13 @@ func c15Handler(c *Ctx, p *Prog, m *Model) {
 				if !isCall || (invokeName(call) != "EnabledContext" && invokeName(call) != "Enabled") {
 					probs = append(probs, "for a level of the table the answer is "+m.valDesc(v)+", not the logger's own answer")
 				}
+			} else {
+				// a level outside the table is still a record to be emitted once (Handle maps it by its band): the handler
+				// must not refuse it; the answer is true, or the logger's own answer
+				v := resolveAlong(t.Instr.(*ssa.Return).Results[0], t.Path)
+				if cb, isC := constBool(v); isC && !cb {
+					probs = append(probs, "a level outside the table (INFO+2, WARN+1, DEBUG-4 ...) is refused by Enabled: log/slog then never calls Handle and the record is emitted zero times")
+				}
 			}
 		}
 		r.Check(len(probs) == 0, "R15.2", "handler4LogSlog.Enabled", p.FuncPos(en), "returns the logger's EnabledContext(ctx, mapped level)", strings.Join(probs, "; "))
